@@ -24,7 +24,7 @@ from common import *
 from lin import Lin, _L, normalize
 from absval import IntVal, PtrVal, CondVal, Obj, NULL, TOP, mk_const, State
 from contracts import Env
-from irlib import demangle, keep_all_but_new_helpers
+from irlib import demangle, keep_all_but_new_helpers, tyname
 
 ONLY = None          # developer switch: run only the named parts
 MAXLEN = 1 << 30     # lengths are assumed <= 2^30 (int / size_t arithmetic of the callers does not wrap)
@@ -128,6 +128,23 @@ class LenInterp(Interp):
                 continue
             vals0[next(iter(xl.t))] = init
             usable.append((Lin.sym(('$', n)), init))
+        # the states after the first and the second trip round the loop, computed with the loop-head symbols pinned to
+        # their values
+        points = []
+        if vals0:
+            first = self.concrete_step(newsyms, vals0) or []
+            points.extend(first)
+            for v1 in first[:3]:
+                if len(v1) == len(vals0):
+                    points.extend(self.concrete_step(newsyms, v1) or [])
+            # the amounts by which the loop-carried quantities move per trip are coefficients worth trying
+            ks = set(ks)
+            for v in first:
+                for sy, l in v.items():
+                    d = l - vals0[sy] if sy in vals0 else None
+                    if d is not None and d.is_const() and 2 <= abs(d.c) <= 8:
+                        ks.add(abs(d.c))
+            ks = sorted(ks)
         templ = []
         seen = set(c.key() for c in out)
 
@@ -156,23 +173,15 @@ class LenInterp(Interp):
                         for k in ks:
                             add_eq(usable[x][0] - usable[y][0] * k - usable[z][0] -
                                    (usable[x][1] - usable[y][1] * k - usable[z][1]))
-        # the harvest also returns the previous round's own candidates: only predicates with a new shape are generalised
-        known_shapes = set(shape(c) for c in out) | set(shape(c) for c in templ)
+        # the harvest also returns the previous round's own templates: those are not generalised again
+        known_shapes = set(shape(c) for c in templ)
         fresh = [c for c in partners if shape(normalize(c)) not in known_shapes]
         if fresh:
             have = set(c.key() for c in out)
             out += [c for c in Interp.gen_candidates(self, st, newsyms, fresh) if c.key() not in have]
         nbase = len(out)
         out += templ
-        # the states after the first and the second trip round the loop, computed with the loop-head symbols pinned to
-        # their values: a candidate that is false there is not an invariant and is discarded without any entailment query
-        points = []
-        if vals0:
-            first = self.concrete_step(newsyms, vals0) or []
-            points.extend(first)
-            for v1 in first[:3]:
-                if len(v1) == len(vals0):
-                    points.extend(self.concrete_step(newsyms, v1) or [])
+        # a candidate that is false at one of the concrete points is not an invariant: discarded without any entailment query
         keep = []
         for n, c in enumerate(out):
             ch = c.subst(head)
@@ -278,7 +287,7 @@ class Base64Text:
 def ghost_obj(st, hint, desc):
     """analysis-only object: survives unknown calls (treated like a local whose address never escapes)"""
     oid = st.fresh_name('ghost_' + hint)
-    o = Obj(oid, 'alloca', Lin(32), {'desc': desc, 'ghost': True})
+    o = Obj(oid, 'alloca', Lin(64), {'desc': desc, 'ghost': True})
     st.objs[oid] = o
     return o
 
@@ -291,10 +300,10 @@ def set_cell(st, key, v):
 
 def watch(st, o):
     """registers read/write frontiers for object o: cells (g,0,8) = read frontier, (g,8,8) = write frontier,
-    (g,16,8) = 1 when an access skipped over bytes (coverage cannot be concluded from the frontier)"""
+    (g,16,8) / (g,24,8) = 1 when a read / write skipped over bytes (coverage cannot be concluded from the frontier)"""
     g = ghost_obj(st, 'fr', 'access frontier of %s' % o.info.get('desc', o.id))
     o.info['frontier'] = g.id
-    for off in (0, 8, 16):
+    for off in (0, 8, 16, 24):
         st.mem[(g.id, off, 8)] = mk_const(64, 0)
     return g
 
@@ -316,7 +325,7 @@ def frontier_hook(interp, st, inst, p, size, kind):
     if st.cons.entails_le(end, F):
         return
     if not st.cons.entails_le(p.off, F):
-        set_cell(st, (g, 16, 8), mk_const(64, 1))
+        set_cell(st, (g, 24 if wr else 16, 8), mk_const(64, 1))
     if st.cons.entails_le(F, end):
         new = end
     else:
@@ -330,16 +339,17 @@ def frontier_hook(interp, st, inst, p, size, kind):
 
 
 def frontier(T, oid, which):
-    """Lin value of the read ('rd') / write ('wr') frontier of object oid, None when lost; 'gap' -> bool"""
+    """Lin value of the read ('rd') / write ('wr') frontier of object oid, None when lost; 'rdgap' / 'wrgap' -> 0 | 1"""
     o = T.objs.get(oid)
     g = o.info.get('frontier') if o is not None else None
     if g is None:
         return None
-    v = T.mem.get((g, {'rd': 0, 'wr': 8, 'gap': 16}[which], 8))
+    v = T.mem.get((g, {'rd': 0, 'wr': 8, 'rdgap': 16, 'wrgap': 24}[which], 8))
     if not isinstance(v, IntVal):
         return None
-    if which == 'gap':
-        return v.const()
+    if which.endswith('gap'):
+        u = T.as_u(v)
+        return 0 if u is not None and T.cons.entails_eq(u, 0) else 1
     return T.as_u(v)
 
 
@@ -375,7 +385,9 @@ class StrModel:
     def R(self, st, this):
         return st.conv.get(('strR',) + self.at(this), self.radix)
 
-    def init(self, st, this, length, radix=None, a=None, b=None):
+    def init(self, st, this, length, radix=None, a=None, b=None, eager=True):
+        """(re)defines the length; eager: the character block exists from now on (a block that is first asked for inside
+        a loop would be a new object in every iteration, and its frontiers would not be carried round the loop)"""
         obj, off = self.at(this)
         R = radix or self.radix
         st.conv[('strR', obj, off)] = R
@@ -394,6 +406,8 @@ class StrModel:
         set_cell(st, (obj, off + 8, 8), IntVal(64, a, None))
         set_cell(st, (obj, off + 16, 8), IntVal(64, b, None))
         self.drop_data(st, this)
+        if eager:
+            self.data_obj(st, this)
 
     def ab(self, st, this):
         obj, off = self.at(this)
@@ -425,7 +439,14 @@ class StrModel:
                 return o
         if not create:
             return None
-        o = st.new_obj('heap', n, 'strdata', {'desc': 'characters of the std::string %s' % str(obj).split('#')[0]})
+        so = st.objs.get(obj)
+        if so is not None and so.kind == 'alloca':
+            who = 'a local std::string'
+        elif so is not None and so.info.get('desc', '').startswith('std::string '):
+            who = so.info['desc']
+        else:
+            who = 'the returned std::string'
+        o = st.new_obj('heap', n, 'strdata', {'desc': 'characters of %s' % who})
         watch(st, o)
         set_cell(st, (obj, off, 8), PtrVal(o.id, Lin(0)))
         return o
@@ -626,6 +647,17 @@ class LenRun(ContractRun):
         self.binders = []
         self.broken = []
         self.ret_cases = []     # dict(name=, when=[...], then=[...]): premises assumed at the return
+        self.case_hits = {}
+
+    def run(self, fname, spec, fn=None):
+        n = ContractRun.run(self, fname, spec, fn)
+        f = fn or self.mod.fn(fname)
+        for pc in self.ret_cases:
+            if not self.case_hits.get(pc['name']):
+                # no return satisfies the premise: recorded as a vacuous instance (the floors count it, evidence shows it)
+                for t in pc['then']:
+                    self.record(f, 'post', '%s: %s' % (pc['name'], t), True, None, vacuous=True)
+        return n
 
     def check_return(self, fn, spec, env, struct_params, T, rv, posts=None):
         from contracts import assume_text
@@ -647,10 +679,11 @@ class LenRun(ContractRun):
                     Ts = nxt
                 # a path that the premise contradicts through a recorded disequality is not a path of this case
                 Ts = [s for s in Ts if not any(s.cons.entails(d) and s.cons.entails(-d) for d in s.diseq.values())]
+                if os.environ.get('C18LEN_DEBUG'):
+                    print('RETCASE %s: %d state(s)' % (pc['name'], len(Ts)))
                 if not Ts:
-                    for t in pc['then']:
-                        self.record(fn, 'post', '%s: %s' % (pc['name'], t), True, None, vacuous=True)
                     continue
+                self.case_hits[pc['name']] = self.case_hits.get(pc['name'], 0) + len(Ts)
                 for s in Ts:
                     ContractRun.check_return(self, fn, spec, env, struct_params, s, rv,
                                              [dict(name=pc['name'], when=[], then=pc['then'])])
@@ -668,7 +701,7 @@ def bind_frontiers(box, pairs):
             v = frontier(T, oid, which)
             if v is None:
                 return 'the %s frontier of %s is lost' % (which, k)
-            if frontier(T, oid, 'gap'):
+            if frontier(T, oid, which + 'gap') != 0:
                 return ('%s is not accessed in ascending order: "every byte is %s" cannot be concluded from the '
                         'frontier' % (k, 'read' if which == 'rd' else 'written'))
             bind(name, v)
@@ -810,9 +843,9 @@ def b64enc_rule(rep, mod, broken):
             for j in range(4):
                 if st.cons.entails_eq(b, j):
                     b = Lin(j)
-        if F is None or not b.is_const() or frontier(st, box['in'], 'gap'):
+        if F is None or not b.is_const() or frontier(st, box['in'], 'rdgap') != 0:
             r.broken.append('base64_encode: position inside the group (%r) / read frontier (%r, gap %r) not known at %s'
-                            % (b, F, frontier(st, box['in'], 'gap'), inst.where()))
+                            % (b, F, frontier(st, box['in'], 'rdgap'), inst.where()))
             return
         size = box['size']
         ok = st.cons.entails_le(F, a * 3 + 3)
@@ -875,6 +908,8 @@ def b64dec_rule(rep, mod, broken):
                 s2.cons.add_eq(P, Q * 4 + k)
                 if not interp.infeasible(s2, P, Q):
                     out.append(s2)
+            if os.environ.get('C18LEN_DEBUG'):
+                print('SPLIT -> %d' % len(out), interp.explain(s, [P, Q])[:1500])
             return out
         it.exit_split = split
     r.binders.append(bind_frontiers(box, [('rd_in', 'in', 'rd')]))
@@ -887,7 +922,242 @@ def b64dec_rule(rep, mod, broken):
     import_obs(rep, 'R-B64DECLEN', it, r, 'igris::base64_decode', mod)
 
 
+# ----------------------------------------------------------------------------------------------------------------
+# R-HEXLEN (std::string overload), R-FWD
+# ----------------------------------------------------------------------------------------------------------------
+def bind_text(model, box, key='out', prefix='text', nbytes=0, need=('rd', 'wr')):
+    """at the return: <prefix>_len, <prefix>_rd, <prefix>_wr of the std::string box[key] (frontiers of its character
+    block; 0 when no pointer into it was ever taken) and, for short constant texts, t0.. = its characters"""
+    def f(T, bind):
+        this = box.get(key)
+        if this is None:
+            return 'string %s not set up' % key
+        bind(prefix + '_len', model.length(T, this))
+        o = model.data_obj(T, this, create=False)
+        for which in need:
+            if o is None:
+                # no pointer into the text was taken since it last grew: it was built by appending (every character
+                # written by construction) and not read
+                bind('%s_%s' % (prefix, which), model.length(T, this) if which == 'wr' else Lin(0))
+                continue
+            v = frontier(T, o.id, which)
+            if v is None:
+                return 'the %s frontier of the text is lost' % which
+            if frontier(T, o.id, which + 'gap') != 0:
+                return 'the text is not accessed in ascending order: coverage cannot be concluded from the frontier'
+            bind('%s_%s' % (prefix, which), v)
+        for j in range(nbytes):
+            v = T.mem.get((o.id, j, 1)) if o is not None else None
+            if not isinstance(v, IntVal):
+                return 'character %d of the text is not known at the return' % j
+            bind('t%d' % j, T.force_u(v))
+    return f
+
+
+def hex_string_rule(rep, repo, broken):
+    src = repo + '/igris/string/hexascii_string.cpp'
+    if not os.path.exists(src):
+        raise AnalysisBroken('igris/string/hexascii_string.cpp not found (anchor vanished)')
+    mod = compile_ir(src, repo, inline=keep_all_but_new_helpers())
+    rep.units.append('igris/string/hexascii_string.cpp (lengths)')
+    enc = the_fn(mod, 'hexascii_encode', 3, lambda f: f.params[0].get('sret') and f.params[1]['ty']['k'] == 'ptr'
+                 and f.params[2]['ty']['k'] == 'int')
+    model = StrModel(mod, radix=1)
+    ext = dict(model.ext)
+    ext.update(DIGIT_EXT)
+    it = LenInterp(mod, externals=ext, opaque=model.opaque | set(DIGIT_EXT))
+    r = LenRun(it)
+    box = {}
+
+    def setup(run_, st, env, names, args, sps):
+        sized_input(st, env, args, 1, 2, box)
+        box['out'] = args[0]
+    r.binders.append(bind_frontiers(box, [('rd_in', 'in', 'rd')]))
+    r.binders.append(bind_text(model, box))
+    r.run(enc.name, FnSpec(pre=['arg2 <= %d' % MAXLEN], setup=setup, post=[
+        dict(name='result-has-2n-characters', then=['text_len == 2 * arg2']),
+        dict(name='every-input-byte-is-read', then=['rd_in == arg2']),
+        dict(name='every-character-of-the-result-is-written', then=['text_wr == 2 * arg2'])]), fn=enc)
+    broken.extend(r.broken)
+    import_obs(rep, 'R-HEXLEN', it, r, 'igris::hexascii_encode(ptr,size)', mod)
+    fwd_rule(rep, mod, broken, 'hexascii_encode', enc, 'igris::hexascii_encode')
+
+
+def fwd_rule(rep, mod, broken, srcname, target, label):
+    """the convenience overloads of `target`(ptr, size) taking a std::string / igris::buffer hand exactly the
+    characters of their argument on: pointer to the first one, length == size()"""
+    n_found = 0
+    for f in mod.defined():
+        if f.srcname != srcname or f is target or len(f.params) != 2 or not f.params[0].get('sret'):
+            continue
+        pty = f.params[1]['ty']
+        if pty['k'] != 'ptr':
+            continue
+        kind = 'string' if 'basic_string' in pty.get('elem', '') else ('buffer' if 'igris::buffer' in pty.get('elem', '') else None)
+        if kind is None:
+            continue
+        n_found += 1
+        model = StrModel(mod, radix=1)
+        ext = dict(model.ext)
+        box = {}
+
+        def callee(interp, st, i, args, box=box, model=model):
+            n = st.force_u(args[2])
+            if not (n.is_const() and n.c == 0):
+                interp.check_access(st, args[1], n, i, 'forwarded-buffer')
+            if st.bottom:
+                return []
+            p = args[1]
+            st.ghost['fwd_calls'] = st.ghost.get('fwd_calls', 0) + 1
+            st.ghost['fwd_len'] = n
+            st.ghost['fwd_off'] = p.off if isinstance(p, PtrVal) and not p.is_null else Lin(-1)
+            st.ghost['fwd_same'] = 1 if isinstance(p, PtrVal) and p.obj == box.get('data') else 0
+            model.init(st, args[0], st.fresh_int(64, False, 'outlen').u)
+            return [(st, None)]
+        ext[target.name] = callee
+        it = LenInterp(mod, externals=ext, opaque=model.opaque | {target.name})
+        r = LenRun(it)
+
+        def setup(run_, st, env, names, args, sps, kind=kind, box=box, model=model, f=f):
+            n = fresh_env(st, env, 'n')
+            if kind == 'string':
+                this, do = model.make(st, 'arg', n, radix=1)
+                args[1] = this
+                box['data'] = do.id
+            else:
+                sname = tyname(f.params[1]['ty']['elem'])
+                fl = mod.flat_fields(sname)
+                ptrs = [m for m in fl if m['ty']['k'] == 'ptr']
+                ints = [m for m in fl if m['ty']['k'] == 'int' and m['ty']['bits'] >= 32]
+                if len(ptrs) != 1 or len(ints) != 1:
+                    raise AnalysisBroken('igris::buffer is no longer {pointer, size} (%r)' % [m['name'] for m in fl])
+                do = st.new_obj('param', n, 'buf.data', {'desc': 'bytes of the igris::buffer argument'})
+                bo = st.new_obj('param', Lin(mod.structs[sname]['size']), 'buf', {'desc': 'igris::buffer argument'})
+                st.mem[(bo.id, ptrs[0]['off'], 8)] = PtrVal(do.id, Lin(0))
+                st.mem[(bo.id, ints[0]['off'], ints[0]['ty']['size'])] = IntVal(ints[0]['ty']['bits'], n, None)
+                args[1] = PtrVal(bo.id, Lin(0))
+                box['data'] = do.id
+        r.run(f.name, FnSpec(setup=setup, post=[
+            dict(name='calls-the-(ptr,size)-overload-once', then=['ghost_fwd_calls == 1']),
+            dict(name='passes-the-first-character', then=['ghost_fwd_same == 1', 'ghost_fwd_off == 0']),
+            dict(name='passes-the-whole-length', then=['ghost_fwd_len == n'])]), fn=f)
+        broken.extend(r.broken)
+        import_obs(rep, 'R-FWD', it, r, '%s(%s)' % (label, 'std::string' if kind == 'string' else 'igris::buffer'), mod)
+    return n_found
+
+
+# ----------------------------------------------------------------------------------------------------------------
+# R-URLWALK, R-URLMAP
+# ----------------------------------------------------------------------------------------------------------------
+def url_rules(rep, mod, broken):
+    enc = the_fn(mod, 'base64_encode', 3, lambda f: f.params[0].get('sret') and f.params[1]['ty']['k'] == 'ptr'
+                 and f.params[2]['ty']['k'] == 'int')
+    dec = the_fn(mod, 'base64_decode', 2, lambda f: f.params[0].get('sret'))
+    uenc = the_fn(mod, 'base64url_encode', 3, lambda f: f.params[0].get('sret') and f.params[1]['ty']['k'] == 'ptr'
+                  and f.params[2]['ty']['k'] == 'int')
+    udec = the_fn(mod, 'base64url_decode', 2, lambda f: f.params[0].get('sret'))
+    ENC_MAP = [('plus', 43, 43, 45), ('slash', 47, 47, 95), ('below-plus', 0, 42, None), ('between', 44, 46, None),
+               ('above-slash', 48, 255, None)]
+    DEC_MAP = [('minus', 45, 45, 43), ('underscore', 95, 95, 47), ('below-minus', 0, 44, None), ('between', 46, 94, None),
+               ('above-underscore', 96, 255, None)]
+
+    def one(fn, label, direction, nconst):
+        """nconst None: text of symbolic length (walk clauses); else a text of nconst characters (map clauses)"""
+        model = StrModel(mod, radix=1)
+        ext = dict(model.ext)
+        box = {}
+
+        def ext_encode(interp, st, i, args):
+            # igris::base64_encode(ptr, size) as decided by R-B64ENCLEN: reads [0, size), returns a text
+            n = st.force_u(args[2])
+            if not (n.is_const() and n.c == 0):
+                interp.check_access(st, args[1], n, i, 'base64_encode-src')
+            if st.bottom:
+                return []
+            st.ghost['codec_calls'] = st.ghost.get('codec_calls', 0) + 1
+            model.init(st, args[0], box['L'])
+            if nconst is not None:
+                o = model.data_obj(st, args[0])
+                for j, v in enumerate(box['bytes']):
+                    st.mem[(o.id, j, 1)] = v
+            return [(st, None)]
+
+        def ext_decode(interp, st, i, args):
+            # igris::base64_decode(text): the text it is handed is the subject of the clauses
+            st.ghost['codec_calls'] = st.ghost.get('codec_calls', 0) + 1
+            why = bind_text(model, {'out': args[1]}, nbytes=nconst or 0, need=('rd',))(st, lambda k, v: st.ghost.__setitem__(k, v))
+            if why:
+                broken.append('%s: %s' % (label, why))
+            model.init(st, args[0], st.fresh_int(64, False, 'decoded').u)
+            return [(st, None)]
+        ext[enc.name] = ext_encode
+        ext[dec.name] = ext_decode
+        it = LenInterp(mod, externals=ext, opaque=model.opaque | {enc.name, dec.name})
+        it.max_peel_states = 81
+        r = LenRun(it)
+
+        def setup(run_, st, env, names, args, sps):
+            if nconst is None:
+                L = fresh_env(st, env, 'L')
+            else:
+                L = Lin(nconst)
+                env.bind('L', L)
+                box['bytes'] = []
+                for j in range(nconst):
+                    c = st.fresh_int(8, False, 'c%d' % j)
+                    box['bytes'].append(c)
+                    env.bind('c%d' % j, c.u)
+            box['L'] = L
+            if direction == 'enc':
+                sized_input(st, env, args, 1, 2, box)
+                box['out'] = args[0]
+            else:
+                this, do = model.make(st, 's', L, radix=1, cells=box.get('bytes'))
+                args[1] = this
+        if direction == 'enc':
+            def b(T, bind):
+                return bind_text(model, box, nbytes=nconst or 0, need=('rd',))(T, lambda k, v: bind('ghost_' + k, v))
+            r.binders.append(b)
+        posts = [dict(name='codec-called-once', then=['ghost_codec_calls == 1'])]
+        if nconst is None:
+            posts += [dict(name='the-text-keeps-its-length', then=['ghost_text_len == L']),
+                      dict(name='every-position-of-the-text-is-read', then=['ghost_text_rd == L'])]
+            if direction == 'enc':
+                posts.append(dict(name='the-result-is-the-substituted-text', then=['ghost_text_len == L']))
+        else:
+            for j in range(nconst):
+                for (cname, lo, hi, img) in (ENC_MAP if direction == 'enc' else DEC_MAP):
+                    r.ret_cases.append(dict(
+                        name='text[%d]:%s' % (j, cname), when=['c%d >= %d' % (j, lo), 'c%d <= %d' % (j, hi)],
+                        then=['ghost_t%d == %s' % (j, img if img is not None else 'c%d' % j)]))
+        r.run(fn.name, FnSpec(pre=(['arg2 <= %d' % MAXLEN] if direction == 'enc' else []), setup=setup, post=posts), fn=fn)
+        broken.extend(r.broken)
+        rule = 'R-URLWALK' if nconst is None else 'R-URLMAP'
+        import_obs(rep, rule, it, r, label if nconst is None else '%s[%d characters]' % (label, nconst), mod,
+                   keep=None if nconst is None else (lambda o: o['kind'] == 'post'))
+
+    for (fn, label, direction) in ((uenc, 'igris::base64url_encode', 'enc'), (udec, 'igris::base64url_decode', 'dec')):
+        one(fn, label, direction, None)
+        one(fn, label, direction, 1)
+        one(fn, label, direction, 3)
+    n = fwd_rule(rep, mod, broken, 'base64_encode', enc, 'igris::base64_encode')
+    n += fwd_rule(rep, mod, broken, 'base64url_encode', uenc, 'igris::base64url_encode')
+    return n
+
+
 def run_ext(rep, repo, tier):
+    import absint
+    saved = absint.MAX_STATES
+    # the case analyses (character classes x residues of the stop position) meet at the return block: more disjuncts than
+    # the engine's default are allowed there, for the duration of this extension only
+    absint.MAX_STATES = 600
+    try:
+        run_parts(rep, repo, tier)
+    finally:
+        absint.MAX_STATES = saved
+
+
+def run_parts(rep, repo, tier):
     broken = []
 
     def part(name):
@@ -902,7 +1172,13 @@ def run_ext(rep, repo, tier):
         b64enc_rule(rep, modb, broken)
     if part('dec'):
         b64dec_rule(rep, modb, broken)
+    if part('url'):
+        url_rules(rep, modb, broken)
+    if part('hexs'):
+        hex_string_rule(rep, repo, broken)
     mine = ('R-HEXLEN', 'R-B64ENCLEN', 'R-B64DECLEN', 'R-URLWALK', 'R-URLMAP', 'R-FWD')
     failing = [i for i in rep.instances if not i['ok'] and i['rule'].split(':')[0] in mine]
+    if os.environ.get('C18LEN_DEBUG') and broken:
+        print('BROKEN NOTES', broken[:6])
     if broken and not failing:
         raise AnalysisBroken('; '.join(broken[:4]))
